@@ -9,6 +9,10 @@
 //	    (and the Prometheus HTTP routes) over chsql
 //	c17 prof    -cases prof_cases.json -out res.json -seed N
 //	    the same through the Pyroscope routes (Series, LabelValues, LabelNames, SelectSeries)
+//	c17 seldays -cases seldays.json -out res.json -seed N
+//	    spec/query/SelectDays.tla: (zone of the reader process, window position relative to the UTC midnights, series
+//	    whose index rows exist only on the UTC days of their samples) through the real CLokiQuerier.Select with
+//	    time.Local set to the zone
 //	c17 promql  -out res.json -seed N -n K
 //	    the vendored Prometheus engine over the real qryn Queryable versus over a real Prometheus TSDB
 //	    (util/teststorage) holding the same samples
@@ -37,7 +41,7 @@ var realStdout = os.Stdout
 
 func main() {
 	if len(os.Args) < 2 {
-		fmt.Fprintln(os.Stderr, "usage: c17 cursor|select|prof|promql ...")
+		fmt.Fprintln(os.Stderr, "usage: c17 cursor|select|prof|seldays|promql ...")
 		os.Exit(2)
 	}
 	// the reader prints SQL and debug lines to stdout: silence it, results go to files
@@ -57,6 +61,8 @@ func main() {
 		err = profMain(fs, os.Args[2:])
 	case "promql":
 		err = promqlMain(fs, os.Args[2:])
+	case "seldays":
+		err = seldaysMain(fs, os.Args[2:])
 	default:
 		err = fmt.Errorf("unknown subcommand %s", cmd)
 	}
